@@ -147,7 +147,9 @@ impl RtpHeader {
                     }
                     offset += len;
                 }
-            } else if ext.profile == 0x1000 {
+            } else if ext.profile & 0xFFF0 == 0x1000 {
+                // RFC 8285 section 4.3: two-byte form is 0x100 followed by 4 "appbits" that a
+                // receiver ignores.
                 let mut offset = 0;
                 while offset < ext.data.len() {
                     let ext_id = ext.data[offset];
